@@ -32,6 +32,11 @@ EXP_NAMES = ["exp", "my_experiment", "test_1", "checkout_v2", "E", "_exp", "pric
 
 SIMPLE_STRS = ["a", "b", "c", "xyz", "US", "CA", "FR", "x", "", "A", "b1", "free", "pro"]
 SIMPLE_SALTS = ["s1", "salt", "csdvs887", "", "v2-exp", "HAGFEUAKVDU", "user_exp_v1", "A B", "7"]
+# strings / salts that are perfectly legal DSL content but hostile to naive embedding in generated code: quotes, a trailing
+# backslash, braces (str.format / f-string syntax), percent, compatibility characters (NFKC folds them to ASCII syntax)
+TRICKY_STRS = ["C:\\", "a\\", "\\", "it's", 'say "hi"', "{x}", "{}", "{", "}", "{0}", "%s", "%(a)s", "100%", "tab\there", "\\n",
+               "\uff02q\uff02", "\uff07", "\ufb01", "x\u00b2", "\u2126", "a\rb", "#", "$a", "`a`", "a;b", "\\'", "{{}}", "é", "日本"]
+SALT_TEMPLATES = ["{%s}", "{%s}:v1", "x{%s!r}", "%%(%s)s", "${%s}", "{%s:>4}", "{0}{%s}"]
 
 
 def idents(pool):
@@ -81,7 +86,8 @@ def weight_vector(draw, n, kind="nice"):
 
 # --------------------------------------------------------------------------- typed program generator
 NUM_LITS = [("0", False), ("1", False), ("2", False), ("3", False), ("5", False), ("10", False), ("18", False),
-            ("21", False), ("100", False), ("1", True), ("7", True), ("4", False), ("9", False)]
+            ("21", False), ("100", False), ("1", True), ("7", True), ("4", False), ("9", False),
+            ("9007199254740993", False), ("18446744073709551615", False)]
 FLOAT_LITS = [("0.5", False), ("1.5", False), ("2.0", False), ("3.14", False), ("0.0", False), ("9.99", False),
               ("2.5", True), ("100.0", False), ("18.0", False), ("0.1", False)]
 
@@ -233,12 +239,26 @@ def _body(env, labels, depth, max_branches, max_groups, pred_depth, ops, wkind, 
     return M.if_(branches, else_)
 
 
+def _idents_only_in_tuples(body):
+    plain, inside = set(), set()
+    for p in M.preds(body):
+        for c in M.cmps(p):
+            for t in (c["l"], c["r"]):
+                if t["k"] == "id":
+                    plain.add(t["name"])
+                elif t["k"] == "tuple":
+                    inside.update(M.term_idents(t))
+    return inside - plain
+
+
 @st.composite
 def programs(draw, *, pool=PLAIN_POOL, min_splitters=0, max_splitters=3, conditional=None,
              max_depth=2, max_branches=3, max_groups=4, pred_depth=2, ops=M.OPS, wkind="nice",
              salts=SIMPLE_SALTS, strs=SIMPLE_STRS, max_fields=5, mixed_labels=True, names=EXP_NAMES,
-             share=True):
+             share=True, tricky=False):
     """-> case skeleton {"prog":…, "classes": {field: cls}}"""
+    if tricky:
+        strs = list(strs) + TRICKY_STRS
     env = _Env(draw, pool, max_fields, strs)
     labels = _Labels(draw, mixed_labels)
     if conditional is None:
@@ -253,6 +273,9 @@ def programs(draw, *, pool=PLAIN_POOL, min_splitters=0, max_splitters=3, conditi
     splitters = []
     for _ in range(nsp):
         cand_shared = [n for n in classes if n not in splitters and classes[n] in ("num", "str")]
+        only_in_tuples = [n for n in cand_shared if n in _idents_only_in_tuples(body)]
+        if only_in_tuples and draw(st.booleans()):
+            cand_shared = only_in_tuples  # a splitter that the conditions mention only inside a tuple
         free = [n for n in pool if n not in classes and n not in splitters]
         if share and cand_shared and (not free or draw(st.integers(0, 9)) < 3):
             splitters.append(draw(st.sampled_from(cand_shared)))
@@ -261,6 +284,12 @@ def programs(draw, *, pool=PLAIN_POOL, min_splitters=0, max_splitters=3, conditi
             splitters.append(n)
             classes[n] = "any"
     salt = draw(st.one_of(st.none(), st.sampled_from(salts))) if salts else None
+    if tricky and draw(st.integers(0, 2)) == 0:
+        if classes and draw(st.booleans()):
+            # a salt that spells a format / f-string replacement field naming one of the experiment's own fields
+            salt = draw(st.sampled_from(SALT_TEMPLATES)) % draw(st.sampled_from(sorted(classes)))
+        else:
+            salt = draw(st.sampled_from(TRICKY_STRS))
     name = draw(st.sampled_from(names))
     salt_q = draw(st.sampled_from(['"', "'"]))
     if salt is not None and salt_q in salt:
